@@ -173,6 +173,11 @@ pub fn gen_input(c: &mut Choices, tail: &[u8]) -> (String, &'static str) {
                 let case = crate::props::c01::decode_case(tail, Tier::Quick, None);
                 render_program(&case.prog, Some(*c.choose(&[Dialect::Classic, Dialect::Cl21, Dialect::Strict21, Dialect::Cl22, Dialect::Cl23, Dialect::Cl231, Dialect::Cl24])))
             };
+            if c.chance(20) {
+                // the valid text as it stands: a crash or hang on a well-formed program is this
+                // property's subject too (the semantic properties leave such cases to C14)
+                return (base, "unmutated");
+            }
             let other = if corpus.is_empty() { String::new() } else { corpus[c.pick(corpus.len())].1.clone() };
             let (mut t, kind) = mutate(c, &base, &other);
             if c.chance(60) {
